@@ -11,15 +11,15 @@ PLAN = {
         replays("C01_struct", flavour="plain", case_timeout=300, name="replays:C01_struct:plain"),
         tape("C01_struct", 1600, size=500, case_timeout=300, flavour="plain", seed_offset=500, name="C01_struct:rc:plain-8MiB-stack"),
         fuzz("C01_struct", 30, workers=8, corpus=[], max_len=2048, dictionary=None, timeout=120, random_seeds=64),
-        fuzz("C01_bytes", 30, workers=8, corpus=_corpus, max_len=65536, dictionary="$VERIF/support/cellml.dict", timeout=120, prefix_config_byte=[0, 3], max_seed_size=6000, max_seeds=40),
+        fuzz("C01_bytes", 30, workers=8, corpus=_corpus, max_len=65536, dictionary="$VERIF/support/cellml.dict", timeout=120, prefix_config_byte=[0, 3], max_seed_size=6000, max_seeds=40, pinned=["$VERIF/corpus/C01"]),
     ],
     "thorough": [
         replays("C01_struct", case_timeout=300), replays("C01_bytes", case_timeout=300),
         tape("C01_struct", 20000, size=600, case_timeout=300),
         replays("C01_struct", flavour="plain", case_timeout=300, name="replays:C01_struct:plain"),
-        tape("C01_struct", 40000, size=600, case_timeout=300, flavour="plain", seed_offset=500, name="C01_struct:rc:plain-8MiB-stack"),
+        tape("C01_struct", 40000, size=600, case_timeout=300, flavour="plain", seed_offset=500, name="C01_struct:rc:plain-8MiB-stack", max_restarts=64),  # the known n-ary chain kills a worker about once per 900 cases
         fuzz("C01_struct", 600, workers=10, corpus=[], max_len=4096, timeout=120, random_seeds=256),
-        fuzz("C01_bytes", 600, workers=6, corpus=_corpus, max_len=65536, dictionary="$VERIF/support/cellml.dict", timeout=120, prefix_config_byte=[0, 3, 7], max_seed_size=20000, max_seeds=400),
+        fuzz("C01_bytes", 600, workers=6, corpus=_corpus, max_len=65536, dictionary="$VERIF/support/cellml.dict", timeout=120, prefix_config_byte=[0, 3, 7], max_seed_size=20000, max_seeds=400, pinned=["$VERIF/corpus/C01"]),
         fuzz("C01_bytes", 120, workers=4, corpus=[], max_len=65536, dictionary="$VERIF/support/cellml.dict", timeout=120, name="C01_bytes:libfuzzer:empty-corpus"),
     ],
     "class_floors": {"stage:parsed": 0.3, "stage:analysed-valid": 0.005},
